@@ -17,6 +17,14 @@
 //!   `entry`: where the builder comes from — `layer` (default) `ChaosLayer::builder()`, `new` `ChaosConfigBuilder::new()`,
 //!   `default` `ChaosConfigBuilder::default()`.
 //!   `name=<s>`: `.name(s)` (default `verif`); `name=-`: `.name(..)` is not called (the layer keeps `<unnamed>`).
+//!   `chain=<tok>,<tok>,…`: THE BUILDER SETTERS IN THE ORDER THEY ARE CALLED (replaces `order=` and the values of `seed` / `erate` /
+//!   `lrate` / `min_us` / `max_us` / `name`, which are then documentation): `m:<µs>` `.min_latency`, `M:<µs>` `.max_latency`,
+//!   `l:<spec>` `.latency_rate`, `e:<spec>` `.error_rate`, `s:<seed>` `.seed`, `n:<name>` `.name`, `f` `.error_fn`, `h` the three
+//!   listeners — any order, any setter any number of times (`f`, `h` once), each called on whichever of the three builder types is
+//!   current (`e` before `f`: `ChaosConfigBuilderWithRate`; `f` first: the rate is set on the builder with the error function).
+//!   The configuration the chain demands — the last setter of each kind, the builder's defaults (10 ms, 100 ms, latency rate 0)
+//!   otherwise, every setter independent of the others — is computed here (`parse_chain`: thresholds `@eT @lT`), by the model
+//!   (`TR.Chaos.buildChain`: the bounds) and by the monitors (`configured_bounds_us`); rate specs `d<i>` refer to the last seed.
 //!   `handles=k`: which handle of the service serves a request. 0 (default) = a fresh clone of the
 //!   pristine service per request; k >= 1 = k clones taken up front, request c goes to handle c mod k
 //!   `ready=<script>`: the wrapped service of instance A is the STRICT scripted service (`Inner::strict`): readiness is
@@ -107,6 +115,7 @@ use std::sync::{Arc, Mutex};
 use std::task::{Context, Poll, Waker};
 use std::time::Duration;
 use tower::{Layer, Service};
+use tower_resilience_chaos::config::{ChaosConfigBuilderWithRate, CustomErrorFn};
 use tower_resilience_chaos::{ChaosConfigBuilder, ChaosLayer};
 
 const P53: u64 = 1 << 53;
@@ -234,6 +243,144 @@ struct Params {
     entry: u8,
     /// `.name(..)`; `None`: not called
     name: Option<String>,
+    /// `chain=`: the builder setters in the order they are called (normalised); `None`: the fixed paths of `order=`
+    chain: Option<Vec<Tok>>,
+}
+
+/// one builder setter of a `chain=` header (see the module documentation)
+#[derive(Clone, Debug)]
+enum Tok {
+    Min(Duration),
+    Max(Duration),
+    LRate(f64),
+    ERate(f64),
+    Seed(u64),
+    Name(String),
+    ErrFn,
+    Hooks,
+}
+
+/// `chain=<tok>,<tok>,…` -> the setters as they will be called, and the configuration they DEMAND: the last setter of
+/// each kind wins, a kind that is never set keeps the builder's default (min 10 ms, max 100 ms, latency rate 0, no
+/// name), setters of different kinds do not influence each other. Normalisation (so that every chain is a legitimate
+/// builder path and the layer is seeded): a second `f` and an `e:` between `.error_rate()` and `.error_fn()` (the
+/// second builder type has no such setter) are left out; an `e:` without any `f` gets `f` at the end; a chain without
+/// `s:` gets `s:<header seed>` at the end, a chain without `h` gets the listeners first.
+fn parse_chain(spec: &str, p: &mut Params) {
+    let parts: Vec<(&str, &str)> = spec.split(',').filter(|t| !t.is_empty()).map(|t| t.split_once(':').unwrap_or((t, ""))).collect();
+    let seed = parts.iter().rev().find(|(k, _)| *k == "s").and_then(|(_, v)| v.parse().ok()).unwrap_or(p.seed);
+    let mut toks: Vec<Tok> = Vec::new();
+    // 0 first builder type, 1 `ChaosConfigBuilderWithRate`, 2 the builder with the error function
+    let mut st = 0;
+    for (k, v) in &parts {
+        match *k {
+            "m" => toks.push(Tok::Min(Duration::from_micros(v.parse().unwrap_or(0)))),
+            "M" => toks.push(Tok::Max(Duration::from_micros(v.parse().unwrap_or(0)))),
+            "l" => toks.push(Tok::LRate(parse_rate(v, seed))),
+            "s" => toks.push(Tok::Seed(v.parse().unwrap_or(0))),
+            "n" => toks.push(Tok::Name(v.to_string())),
+            "h" if !toks.iter().any(|t| matches!(t, Tok::Hooks)) => toks.push(Tok::Hooks),
+            "e" if st != 1 => {
+                toks.push(Tok::ERate(parse_rate(v, seed)));
+                if st == 0 {
+                    st = 1;
+                }
+            }
+            "f" if st != 2 => {
+                toks.push(Tok::ErrFn);
+                st = 2;
+            }
+            _ => {}
+        }
+    }
+    if st == 1 {
+        toks.push(Tok::ErrFn);
+        st = 2;
+    }
+    if !toks.iter().any(|t| matches!(t, Tok::Seed(_))) {
+        toks.push(Tok::Seed(seed));
+    }
+    if !toks.iter().any(|t| matches!(t, Tok::Hooks)) {
+        toks.insert(0, Tok::Hooks);
+    }
+    // the configuration the chain demands: last setter of each kind, defaults of `ChaosConfigBuilder::new()` otherwise
+    p.seed = seed;
+    p.min = Duration::from_millis(10);
+    p.max = Duration::from_millis(100);
+    p.lrate = 0.0;
+    p.erate = if st == 2 { Some(0.0) } else { None };
+    p.name = None;
+    for t in &toks {
+        match t {
+            Tok::Min(d) => p.min = *d,
+            Tok::Max(d) => p.max = *d,
+            Tok::LRate(r) => p.lrate = *r,
+            Tok::ERate(r) => p.erate = Some(*r),
+            Tok::Name(n) => p.name = Some(n.clone()),
+            _ => {}
+        }
+    }
+    p.chain = Some(toks);
+}
+
+type ErrF = fn(&Req) -> IErr;
+/// the three builder types a chain of setters passes through
+enum B {
+    Plain(ChaosConfigBuilder),
+    Rate(ChaosConfigBuilderWithRate),
+    Full(ChaosConfigBuilder<CustomErrorFn<ErrF>>),
+}
+macro_rules! on_any {
+    ($b:expr, $x:ident => $e:expr) => {
+        match $b {
+            B::Plain($x) => B::Plain($e),
+            B::Rate($x) => B::Rate($e),
+            B::Full($x) => B::Full($e),
+        }
+    };
+}
+
+/// Build one layer value by calling the setters of `chain` in that very order, on whichever builder type is current.
+fn build_chain<S, C, R>(b0: ChaosConfigBuilder, chain: &[Tok], h: Hooks, k: C) -> R
+where
+    S: Service<Req, Response = Resp, Error = IErr> + Clone + Send + 'static,
+    S::Future: Send + 'static,
+    C: Consumer<S, R>,
+{
+    let mut hooks = Some(h);
+    let f: ErrF = inject;
+    let mut b = B::Plain(b0);
+    for t in chain {
+        b = match t {
+            Tok::Min(d) => on_any!(b, x => x.min_latency(*d)),
+            Tok::Max(d) => on_any!(b, x => x.max_latency(*d)),
+            Tok::LRate(r) => on_any!(b, x => x.latency_rate(*r)),
+            Tok::Seed(s) => on_any!(b, x => x.seed(*s)),
+            Tok::Name(n) => on_any!(b, x => x.name(n.clone())),
+            Tok::Hooks => match hooks.take() {
+                Some(Hooks { e, l, p }) => on_any!(b, x => x
+                    .on_error_injected(move || e())
+                    .on_latency_injected(move |d| l(d))
+                    .on_passed_through(move || p())),
+                None => b,
+            },
+            Tok::ERate(r) => match b {
+                B::Plain(x) => B::Rate(x.error_rate(*r)),
+                B::Full(x) => B::Full(x.error_rate(*r)),
+                other => other,
+            },
+            Tok::ErrFn => match b {
+                B::Plain(x) => B::Full(x.error_fn(f)),
+                B::Rate(x) => B::Full(x.error_fn(f)),
+                other => other,
+            },
+        };
+    }
+    match b {
+        B::Plain(x) => k.take(x.build()),
+        B::Full(x) => k.take(x.build()),
+        B::Rate(x) => k.take(x.error_fn(f).build()),
+    }
 }
 impl Params {
     fn min_ms(&self) -> u64 {
@@ -447,12 +594,15 @@ where
     S::Future: Send + 'static,
     C: Consumer<S, R>,
 {
-    let Hooks { e, l, p: pt } = h;
     let b0 = match p.entry {
         1 => ChaosConfigBuilder::new(),
         2 => ChaosConfigBuilder::default(),
         _ => ChaosLayer::builder(),
     };
+    if let Some(chain) = &p.chain {
+        return build_chain(b0, chain, h, k);
+    }
+    let Hooks { e, l, p: pt } = h;
     let f: fn(&Req) -> IErr = inject;
     match (p.erate, p.order) {
         (Some(r), 2) => {
@@ -633,7 +783,8 @@ pub struct Adapter {
 impl Adapter {
     pub fn new(kv: &Kv) -> Adapter {
         let seed = kv.u64("seed", 0);
-        let p = Params {
+        let mut p = Params {
+            chain: None,
             seed,
             erate: kv.get("erate").map(|s| parse_rate(s, seed)),
             lrate: parse_rate(&kv.str("lrate", "T0"), seed),
@@ -652,6 +803,10 @@ impl Adapter {
                 None => Some("verif".to_string()),
             },
         };
+        if let Some(spec) = kv.get("chain") {
+            parse_chain(spec, &mut p);
+        }
+        log_raw(format!("#cfg min_ms={} max_ms={} seed={} chain={}", p.min_ms(), p.max_ms(), p.seed, u8::from(p.chain.is_some())));
         witness(&p);
         let cur: Cur = Default::default();
         let cur_b: Cur = Default::default();
